@@ -5,7 +5,7 @@
 From Coq Require Import ZArith Bool List String.
 From EV Require Import Base.Arith Gen.Dispatch Gen.SvGuards Model.DispatchModel Model.Accepts Proofs.AcceptsProofs.
 
-(* Whole finite feature domain (every value of `feat`, 6144 per backend): if the closed boolean
+(* Whole finite feature domain (every value of `feat`, 10752 per backend): if the closed boolean
    table check holds for backend b then every accepted feature combination is supported.  ./check
    discharges the premise with the Coq VM on the model generated from the current source and proves
    the unconditional `forall f, accepts b f = true -> supported b f = true` (obligations
@@ -23,10 +23,11 @@ Proof. exact accept_supported. Qed.
 Theorem C04_enumeration_complete : forall P, all_feat P = true -> forall f, P f = true.
 Proof. exact all_feat_spec. Qed.
 
-(* Unconditional: a sequence addressing the digital basis (alone or together with the Rydberg
-   basis) is never accepted by either backend. *)
+(* Unconditional: a sequence whose pulser Hamiltonian involves the digital basis (alone, or together
+   with the Rydberg basis through a Raman pulse with non-zero amplitude OR non-zero detuning) is
+   never accepted by either backend. *)
 Theorem C04_foreign_basis_rejected : forall b f,
-  (f_chan f = ChDig \/ f_chan f = ChBoth) -> accepts b f = false.
+  (f_chan f = ChDig \/ f_chan f = ChBoth \/ f_chan f = ChRydDet) -> accepts b f = false.
 Proof. exact foreign_basis_rejected. Qed.
 
 (* Unconditional: hyperfine dephasing is refused with NotImplementedError by both backends. *)
